@@ -68,7 +68,16 @@ pub fn data_elements_to_string(elements: &Vec<DataElement>) -> String {
     elements
         .iter()
         .map(|element| match element {
-            DataElement::String(string) => format!("\"{}\"", string),
+            DataElement::String(string) => {
+                if string.contains('"') {
+                    // There's no way to escape a double quote, so this can only have
+                    // been an unquoted item, which is what it needs to remain in
+                    // order to be parsed the same way again.
+                    string.to_string()
+                } else {
+                    format!("\"{}\"", string)
+                }
+            }
             DataElement::Number(number) => number.to_string(),
         })
         .collect::<Vec<_>>()
